@@ -333,9 +333,16 @@ inline Run run_form(const std::string& form, const Input& in, bool none_as_max) 
 }
 
 // ---------------------------------------------------------------------------------------------- JSON
+// equal intervals grouped, in the order of first appearance: [dim, birth, death, how many]
 inline bj::array jbars(const std::vector<Bar>& v) {
+  std::map<Bar, std::size_t> where;
+  std::vector<std::pair<Bar, std::int64_t>> g;
+  for (auto& b : v) {
+    auto it = where.find(b);
+    if (it == where.end()) { where[b] = g.size(); g.emplace_back(b, 1); } else ++g[it->second].second;
+  }
   bj::array a;
-  for (auto& b : v) a.push_back(bj::array{b.dim, b.b, b.d});
+  for (auto& q : g) a.push_back(bj::array{q.first.dim, q.first.b, q.first.d, q.second});
   return a;
 }
 inline bj::object jrun(const Run& r) {
@@ -347,7 +354,10 @@ inline bj::object jrun(const Run& r) {
 inline Run run_of_json(const bj::object& o) {
   Run r;
   r.dims = vf::ints(o.at("dims"));
-  for (auto& b : o.at("out").as_array()) { auto& a = b.as_array(); r.out.push_back(Bar{static_cast<int>(a[0].as_int64()), a[1].as_int64(), a[2].as_int64()}); }
+  for (auto& b : o.at("out").as_array()) {
+    auto& a = b.as_array();
+    for (std::int64_t m = 0; m < a[3].as_int64(); ++m) r.out.push_back(Bar{static_cast<int>(a[0].as_int64()), a[1].as_int64(), a[2].as_int64()});
+  }
   if (o.contains("exception")) r.exception = std::string(o.at("exception").as_string());
   if (o.contains("problems")) for (auto& q : o.at("problems").as_array()) r.problems.push_back(std::string(q.as_string()));
   return r;
